@@ -166,6 +166,9 @@ def run(ctx) -> None:
     ctx.rule("C16.R10-both-spellings-replaced", "in the substitution loop of _compute_memoization_info the test for the relative spelling of a "
              "reference is not skipped when the absolute spelling occurs as well (no if/elif between the two): a reference the "
              "arguments spell both ways is replaced by its content hash in both places, otherwise the producer's name stays in the hash")
+    ctx.rule("C16.R17-relative-spelling-belongs-to-the-own-stage-producer", "in _compute_memoization_info the reference whose hash replaces a relative "
+             "spelling found in the arguments is chosen with the component's own stage in view (own stage first, then the lowest stage - "
+             "resolveArguments' rule): the code that fills the owner table reads identification.stageIndex")
     ctx.rule("C16.R11-serialisation-is-injective", "_memoization_info_to_hash separates the keys and values it concatenates (a delimiter, a length "
              "prefix, or a structured dump): without one, different (executable, arguments) pairs serialise to the same text")
     ctx.rule("C16.R12-no-hash-stays-no-hash", "the public hash properties post-process a computed hash (prefix, join, format) only when it is not None")
@@ -576,6 +579,44 @@ def run(ctx) -> None:
                "the relative spelling of a reference is looked for only when the absolute one does not occur (if/elif): in "
                "'stage0.P/out.txt:ref P/out.txt:ref' the second occurrence is hashed verbatim, so the strong hash changes when only the "
                "producer is renamed", construct="relative spelling test reachable after the absolute one matched")
+
+    # ---------------- R17: whose the relative spelling is -------------------------------------------------
+    # 'P/out.txt:ref' carries no stage: in the arguments it names the producer in the component's OWN stage when a reference points
+    # there, else the one in the lowest stage (the rule resolveArguments applies, C10.R4).  Whatever form the choice takes, it cannot
+    # prefer the own-stage producer without consulting the component's stage: the statements that fill the owner table (and the loops /
+    # sort keys around them) mention identification.stageIndex, directly or through a local (seed C16-13: first claim in stage order).
+    own_locals = set(match.locals_where(fn, lambda v: (dotted(v) or "").endswith("identification.stageIndex")))
+    fills = []
+    for x in source.walk_own(fn, include_nested=False):
+        if isinstance(x, ast.Assign) and any(isinstance(t, ast.Subscript) and isinstance(t.slice, ast.Attribute) and t.slice.attr == "relativeReference"
+                                             for t in x.targets):
+            fills.append(x)
+        elif isinstance(x, ast.Call) and last_attr(x) == "setdefault" and x.args and isinstance(x.args[0], ast.Attribute) \
+                and x.args[0].attr == "relativeReference":
+            fills.append(x)
+    ctx.require(bool(fills), "anchor missing: the table that decides which reference owns a relative spelling in _compute_memoization_info")
+    for fl_ in fills:
+        region = [fl_] + [a for a in source.ancestors(fl_) if isinstance(a, (ast.For, ast.While)) and any(a is y for y in ast.walk(fn))]
+        # what the loops iterate (sort keys included) belongs to the choice; the rest of an outer loop's body does not
+        scope_nodes = [fl_] + [lp.iter for lp in region[1:] if isinstance(lp, ast.For)]
+        # the statement that holds the fill (its guard, its value)
+        holder = next((a for a in source.ancestors(fl_) if isinstance(a, ast.stmt)), fl_) if not isinstance(fl_, ast.stmt) else fl_
+        guards = [a.test for a in source.ancestors(fl_) if isinstance(a, ast.If) and any(a is y for lp in region[1:] for y in ast.walk(lp))]
+        scope_nodes += [holder] + guards
+        # locals the scope reads (rivals = [...], owner = D.get(..), a key function bound to a name) count too, one level deep
+        read = {y.id for sn in scope_nodes for y in ast.walk(sn) if isinstance(y, ast.Name)}
+        for st_ in source.walk_own(fn, include_nested=False):
+            if isinstance(st_, ast.Assign) and any(isinstance(t, ast.Name) and t.id in read for t in st_.targets):
+                scope_nodes.append(st_.value)
+        consults = any((isinstance(y, ast.Name) and y.id in own_locals) or (isinstance(y, ast.Attribute) and (dotted(y) or "").endswith("identification.stageIndex"))
+                       for sn in scope_nodes for y in ast.walk(sn))
+        ctx.ob("C16.R17-relative-spelling-belongs-to-the-own-stage-producer", fl_, consults,
+               "the choice of the reference that owns a relative spelling consults the component's own stage" if consults else
+               "the reference that owns a relative spelling is chosen without looking at the component's own stage (%s): with references "
+               "[stage0.P/out.txt:ref, stage1.P/out.txt:ref] in a stage-1 component 'P/out.txt:ref' in the arguments - which is the stage-1 "
+               "producer - is replaced by the hash of the stage-0 file, so the strong hash misses a change of the file the command really reads "
+               "and changes with one it does not" % short(fl_, 70),
+               construct="owner of a relative spelling <- own stage first")
 
     # ---------------- R11: separators -------------------------------------------------------------------
     accs = [n for n in source.walk_own(info_to_hash) if isinstance(n, ast.AugAssign) and isinstance(n.op, ast.Add) and isinstance(n.target, ast.Name)]
